@@ -61,6 +61,7 @@ type Obligation struct {
 	RawOut  string
 	Region  string // known-finding region applied (if any)
 	Finding *Finding
+	Results []Val // post obligations: result terms of the exit
 }
 
 // VC accumulates one SMT context (declarations + assertions in order) for one function under
@@ -71,6 +72,8 @@ type VC struct {
 	declared map[string]bool
 	compSorts map[string]string
 	nonNil   map[string]bool
+	compTypes map[string]types.Type
+	knownTag map[string]int
 	boxedLocals []boxed
 	asserts  []string
 	obligs   []*Obligation
@@ -88,7 +91,7 @@ type VC struct {
 
 func newVC(p *Program, name string) *VC {
 	return &VC{prog: p, fnName: name, declared: map[string]bool{}, inlined: map[string]bool{}, assumed: map[string]bool{},
-		havocked: map[string]bool{}, structs: map[string]bool{}, litCache: map[string]string{}, compSorts: map[string]string{}, nonNil: map[string]bool{}, tags: map[string]int{}, fnIDs: map[*ssa.Function]int{}}
+		havocked: map[string]bool{}, structs: map[string]bool{}, litCache: map[string]string{}, compSorts: map[string]string{}, nonNil: map[string]bool{}, compTypes: map[string]types.Type{}, knownTag: map[string]int{}, tags: map[string]int{}, fnIDs: map[*ssa.Function]int{}}
 }
 
 func (vc *VC) fresh(base string) string {
@@ -407,15 +410,22 @@ type compInfo struct {
 	sort string
 }
 
-func (vc *VC) comp(st *State, name, sort string) string {
+func (vc *VC) comp(st *State, name, sort string, vt ...types.Type) string {
+	if len(vt) > 0 && vc.compTypes[name] == nil {
+		vc.compTypes[name] = vt[0]
+	}
 	if t, ok := st.heap[name]; ok {
 		return t
 	}
 	// first touch anywhere: the initial (entry) version; all states created later inherit it through
 	// the root lookup below.
+	fresh := !vc.declared[q("H0 "+name)]
 	init := vc.declare("H0 "+name, sort)
 	vc.compSorts[name] = sort
 	st.heap[name] = init
+	if fresh {
+		vc.assertCompWF(init, name, q("alloc0"))
+	}
 	return init
 }
 
@@ -599,4 +609,27 @@ type Finding struct {
 	What       string `json:"what"`
 	Status     string `json:"status"` // "known" | "fixed"
 	Commit     string `json:"commit,omitempty"`
+}
+
+// assertCompWF: every value stored in a heap component is well typed and refers only to allocated
+// objects (a global invariant of Go memory; the obligations on stores and arithmetic keep it).
+func (vc *VC) assertCompWF(term, name, alloc string) {
+	vt := vc.compTypes[name]
+	if vt == nil {
+		return
+	}
+	switch {
+	case strings.HasPrefix(name, "E "):
+		v := fmt.Sprintf("(select (select %s a) i)", term)
+		f := and(vc.typed(v, vt, 2), vc.refsBelow(v, vt, alloc, 2))
+		if f != "true" {
+			vc.assert(fmt.Sprintf("(forall ((a Int) (i Int)) (! %s :pattern (%s)))", f, v))
+		}
+	case strings.HasPrefix(name, "F "), strings.HasPrefix(name, "C "):
+		v := fmt.Sprintf("(select %s r)", term)
+		f := and(vc.typed(v, vt, 2), vc.refsBelow(v, vt, alloc, 2))
+		if f != "true" {
+			vc.assert(fmt.Sprintf("(forall ((r Int)) (! %s :pattern (%s)))", f, v))
+		}
+	}
 }
